@@ -48,26 +48,53 @@ func skipReasons(p *core.Prog) (skipped map[string]bool, fn *ssa.Function) {
 	}
 	skipped = map[string]bool{}
 	isFilter := core.IsCallTo(false, "(*dnsforward.Server).filterAfterResponse", kFilterResp)
+	reasonEq := func(v ssa.Value) (name string, neg, ok bool) {
+		at := core.Decompose(v)
+		if at.Op != token.EQL || at.Base == nil || core.NamedKey(at.Base.Type()) != "filtering.Reason" {
+			return "", false, false
+		}
+		k, isC := core.ConstInt(at.Other)
+		if !isC {
+			return "", false, false
+		}
+		return names[k], at.Neg, true
+	}
 	for _, b := range fn.Blocks {
 		ifi, ok := b.Instrs[len(b.Instrs)-1].(*ssa.If)
 		if !ok {
 			continue
 		}
+		if name, neg, isEq := reasonEq(ifi.Cond); isEq {
+			succ := 0
+			if neg {
+				succ = 1
+			}
+			found, _, _ := core.Reach(core.Query{From: []core.Point{core.AfterEdge(core.Edge{From: b, Succ: succ})}, Target: isFilter})
+			if !found {
+				skipped[name] = true
+			}
+			continue
+		}
+		// `isX := reason == A || reason == B || ...; if isX`: the last comparison of the chain is not a branch of
+		// its own but the value the joining block decides on
 		at := core.Decompose(ifi.Cond)
-		if at.Op != token.EQL || core.NamedKey(at.Base.Type()) != "filtering.Reason" {
+		phi, isPhi := at.Base.(*ssa.Phi)
+		if at.Op != token.ILLEGAL || !isPhi || phi.Block() != b {
 			continue
 		}
-		v, ok := core.ConstInt(at.Other)
-		if !ok {
-			continue
-		}
-		succ := 0
-		if at.Neg {
-			succ = 1
-		}
-		found, _, _ := core.Reach(core.Query{From: []core.Point{{Block: b.Succs[succ], Idx: 0}}, Target: isFilter})
-		if !found {
-			skipped[names[v]] = true
+		for _, e := range phi.Edges {
+			name, neg, isEq := reasonEq(e)
+			if !isEq {
+				continue
+			}
+			succ := 0
+			if neg != at.Neg {
+				succ = 1
+			}
+			found, _, _ := core.Reach(core.Query{From: []core.Point{core.AfterEdge(core.Edge{From: b, Succ: succ})}, Target: isFilter})
+			if !found {
+				skipped[name] = true
+			}
 		}
 	}
 	return skipped, fn
@@ -208,44 +235,76 @@ func runC02(c *Ctx) {
 		}
 		r.Check(got["*github.com/miekg/dns.SVCBIPv4Hint"] && got["*github.com/miekg/dns.SVCBIPv6Hint"], "C02-D1", "https-hint-kinds", p.FnPos(fh),
 			"both ipv4hint and ipv6hint parameters are inspected", "not both ipv4hint and ipv6hint are inspected")
-		// early return inside the parameter loop only with a result that filterSVCBHint produced
-		for _, b := range fh.Blocks {
-			for _, in := range b.Instrs {
-				ret, ok := core.AsReturn(in)
-				if !ok || len(ret.Results) != 2 {
-					continue
+		// the parameter loop is left early only with a verdict of the rule check that says "filtered": every non-nil
+		// result returned is checkHostRules' own, tested for IsFiltered on the way, or comes from a helper of the
+		// package for which the same holds (filterSVCBHint in the verified tree)
+		okValue, okFiltered, nChecked := true, true, 0
+		var offAll []core.Offender
+		var posBad string
+		seenFn := map[*ssa.Function]bool{}
+		var walk func(fn *ssa.Function, depth int)
+		walk = func(fn *ssa.Function, depth int) {
+			if seenFn[fn] {
+				return
+			}
+			seenFn[fn] = true
+			for _, b := range fn.Blocks {
+				for _, in := range b.Instrs {
+					ret, ok := core.AsReturn(in)
+					if !ok || len(ret.Results) != 2 {
+						continue
+					}
+					at := in
+					for _, leaf := range core.FlattenPhi(core.ResolveCellLoad(core.ResolveLocalLoad(core.Res(ret, 0)))) {
+						leaf = core.ResolveCellLoad(leaf)
+						if core.IsNilConst(leaf) {
+							continue
+						}
+						call, idx, isRes := core.CallResult(leaf)
+						if !isRes || idx != 0 {
+							okValue = false
+							posBad = p.InstrPos(in)
+							continue
+						}
+						if core.CalleeKey(call.Common()) == "(*dnsforward.Server).checkHostRules" {
+							nChecked++
+							lf := leaf
+							g, n := core.CondEdges(fn, func(a core.Atom) (bool, bool) {
+								if a.Op == token.ILLEGAL {
+									if f2, owner, ok := core.LoadedField(a.Base); ok && f2.Type == "filtering.Result" && f2.Field == "IsFiltered" && core.SameValue(core.ResolveCellLoad(owner), lf) {
+										return true, true
+									}
+								}
+								return false, false
+							})
+							off, _ := core.UnguardedSinks(fn, func(x ssa.Instruction) bool { return x == at }, g)
+							if n == 0 || len(off) > 0 {
+								okFiltered = false
+								offAll = append(offAll, off...)
+							}
+							continue
+						}
+						h := core.Callee(call.Common())
+						if h == nil || len(h.Blocks) == 0 || h.Pkg != fn.Pkg || depth >= 3 {
+							okValue = false
+							posBad = p.InstrPos(in)
+							continue
+						}
+						walk(h, depth+1)
+					}
 				}
-				v := core.ResolveLocalLoad(core.Res(ret, 0))
-				if core.IsNilConst(v) {
-					continue
-				}
-				r.Check(core.IsCallResult(core.ResolveCellLoad(v), 0, "(*dnsforward.Server).filterSVCBHint"), "C02-D1", "https-early-return-value", p.InstrPos(in),
-					"the parameter loop is left early only with the hint checker's result", "the HTTPS parameter loop is left early with another value")
 			}
 		}
-	}
-	fs := p.Fn("(*dnsforward.Server).filterSVCBHint")
-	if fs == nil {
-		r.Undecided("C02-D1", "filterSVCBHint", "-", "anchor not found")
-	} else {
-		gF, nF := core.CondEdges(fs, func(at core.Atom) (bool, bool) {
-			if at.Op == token.ILLEGAL {
-				if f2, _, ok := core.LoadedField(at.Base); ok && f2.Type == "filtering.Result" && f2.Field == "IsFiltered" {
-					return true, true
-				}
-			}
-			return false, false
-		})
-		off, ns := core.UnguardedSinks(fs, func(in ssa.Instruction) bool {
-			ret, ok := core.AsReturn(in)
-			if !ok || len(ret.Results) != 2 || in.Block() == fs.Recover {
-				return false
-			}
-			return !core.IsNilConst(core.ResolveCellLoad(core.ResolveLocalLoad(core.Res(ret, 0))))
-		}, gF)
-		r.Check(nF > 0 && ns > 0 && len(off) == 0, "C02-D1", "hint-checker-reports-only-filtered", p.FnPos(fs),
+		walk(fh, 0)
+		pos := p.FnPos(fh)
+		if posBad != "" {
+			pos = posBad
+		}
+		r.Check(okValue, "C02-D1", "https-early-return-value", pos,
+			"the parameter loop is left early only with the hint checker's result", "the HTTPS parameter loop is left early with another value")
+		r.Check(okFiltered && nChecked > 0, "C02-D1", "hint-checker-reports-only-filtered", p.FnPos(fh),
 			"the hint checker returns a result only when an address is filtered, so a clean first parameter does not end the inspection",
-			"the hint checker can return a non-nil result that is not filtered: the caller stops at the first non-empty hint parameter and later (blocked) hints are never inspected", traceOf(p, off)...)
+			"the hint checker can return a non-nil result that is not filtered: the caller stops at the first non-empty hint parameter and later (blocked) hints are never inspected", traceOf(p, offAll)...)
 	}
 
 	// D2: loop over the whole answer; exits
